@@ -1484,6 +1484,46 @@ func checkC19(c *Ctx, r *Report) {
 			}
 		}
 	}
+	// methods of *os.File other than the nil-safe ones (those that begin with checkValid) dereference a nil receiver
+	for _, nt := range ro.LeafAppenders {
+		for _, mn := range []string{"Write", "Append"} {
+			m := c.declaredMethod(nt, mn)
+			if m == nil {
+				continue
+			}
+			for f := range c.reach(m) {
+				if recvNamed(f) != nt {
+					continue
+				}
+				eachInstr(f, func(in ssa.Instruction) {
+					call, ok := in.(*ssa.Call)
+					if !ok {
+						return
+					}
+					s := call.Common().StaticCallee()
+					if s == nil || !funcIs(s, "os", "File", s.Name()) || len(call.Call.Args) == 0 {
+						return
+					}
+					recv := call.Call.Args[0]
+					held := false
+					for _, fld := range fileHolderFields(nt) {
+						if c.fromFileField(recv, fld) {
+							held = true
+						}
+					}
+					if !held || osFileNilSafe(s) {
+						return
+					}
+					for _, g := range guardsOfInstr(in) {
+						if b, ok := g.Cond.(*ssa.BinOp); ok && isNilConst(b.Y) && (b.X == recv || c.sameFieldLoad(b.X, recv)) && ((b.Op == token.NEQ) == g.Polarity) {
+							return
+						}
+					}
+					r.Fail("C19.nil-file:"+fname(f)+"→"+s.Name(), c.instrPos(in), "(*os.File).%s is called on the appender's file without a nil test; unlike Write it dereferences a nil receiver, so logging through an appender whose file was never opened (failed Start) panics", s.Name())
+				})
+			}
+		}
+	}
 	// retention under go only
 	if ro.Retention != nil {
 		for _, cs := range c.callSitesOf(ro.Retention) {
@@ -1567,4 +1607,30 @@ func checkNoPanicHot(c *Ctx, r *Report, ro *Roles, rule string) {
 		roots = append(roots, f)
 	}
 	c.wholeProgramObligation(r, rule+":whole-program", roots, false, true, false, "process-ending call reachable from the log call path")
+}
+
+// osFileNilSafe: the method starts by validating its receiver (calls (*File).checkValid first), so a nil *os.File
+// yields ErrInvalid instead of a nil dereference.
+func osFileNilSafe(f *ssa.Function) bool {
+	if len(f.Blocks) == 0 {
+		return false
+	}
+	for _, in := range f.Blocks[0].Instrs {
+		switch x := in.(type) {
+		case *ssa.Call:
+			if s := x.Common().StaticCallee(); s != nil && s.Name() == "checkValid" {
+				return true
+			}
+			return false
+		case *ssa.FieldAddr, *ssa.UnOp:
+			if fa, ok := in.(*ssa.FieldAddr); ok && fa.X == ssa.Value(f.Params[0]) {
+				return false
+			}
+		case *ssa.If:
+			if b, ok := x.Cond.(*ssa.BinOp); ok && b.X == ssa.Value(f.Params[0]) && isNilConst(b.Y) {
+				return true
+			}
+		}
+	}
+	return false
 }
